@@ -19,6 +19,7 @@ def order(short=False):
     o = list(ORDER)
     if not short:
         o[0] = o[0].replace(" && !shortCircuit()", "")
+        o.append('//@ ensures [C07] both: ncalls() >= 1 && calleeIs(0, "invokeExpr") && (res(0) == nil ==> ncalls() == 2 && calleeIs(1, "invokeExpr"))')
     return o
 
 EXTRA = {
@@ -29,7 +30,7 @@ EXTRA = {
               '//@ spawnsite [C16 C07] argsfirst: ncalls() >= 1 && calleeIs(ncalls()-1, "makeCallArgs") && arg(ncalls()-1) == callExpr && res(ncalls()-1) == nil'],
  "funcExpr": ["// C04: a function value captures the scope it is DEFINED in (not a copy, not a child made once), the options and the node",
               "//@ closure funcExpr$1 [C04] defscope: envFunc == runInfo.env && options == runInfo.options && funcExpr == as(runInfo.expr, \"*ast.FuncExpr\")"],
- "int64Value": ["//@ autoprops C01 C05", "//@ ensures [C05] val: rvKind(result) == reflect.Int64 && rvInt(result) == v && rvValid(result) && !rvIsNil(result)"],
+ "int64Value": ["//@ autoprops C01 C05", "//@ ensures [C05] val: rvKind(result) == reflect.Int64 && rvInt(result) == v && rvValid(result) && !rvIsNil(result)", "//@ ensures [C05 C14] fresh: !rvCanAddr(result)"],
  "float64Value": ["//@ ensures [C05] val: rvKind(result) == reflect.Float64 && same(rvFloat(result), v) && rvValid(result) && !rvIsNil(result)"],
  "isIntKind": ["//@ ensures [C05] def: result == isIntK(rvKind(v))"],
  "isNum": ["//@ ensures [C06] def: result == (isIntK(rvKind(v)) || isUintK(rvKind(v)) || rvKind(v) == reflect.Uintptr || isFloatK(rvKind(v)))"],
@@ -95,7 +96,13 @@ EXTRA = {
    '//@ ensures [C05 C20] negFloat: runInfo.err == nil && expr.Operator == "-" && rvKind(unwrap(res2(0))) == reflect.Float64 ==> rvKind(runInfo.rv) == reflect.Float64 && same(rvFloat(runInfo.rv), fneg(rvFloat(unwrap(res2(0)))))',
    '//@ ensures [C05 C20] notInt: runInfo.err == nil && expr.Operator == "^" && rvKind(unwrap(res2(0))) == reflect.Int64 ==> rvKind(runInfo.rv) == reflect.Int64 && rvInt(runInfo.rv) == 0 - rvInt(unwrap(res2(0))) - 1',
  ],
- "invokeLetExpr": ["//@ traced runInfo.expr -> runInfo.err"],
+ "invokeLetExpr": ["//@ traced runInfo.expr -> runInfo.err",
+   "// C04: plain assignment `x = v` updates the NEAREST existing binding of x (Env.SetValue on the current scope walks the chain)",
+   "// and only when there is none creates one, in the CURRENT scope (never in an enclosing or a fresh one); the value stored is",
+   "// the one being assigned, under the identifier's own name",
+   "//@ traces (*Env).SetValue (*Env).DefineValue",
+   '//@ ensures [C04] ident: typeis(old(runInfo.expr), "*ast.IdentExpr") ==> ncalls() >= 1 && calleeIs(0, "env.(*Env).SetValue") && arg(0) == as(old(runInfo.expr), "*ast.IdentExpr").Lit && res2(0) == old(runInfo.rv) && res3(0) == old(runInfo.env) && ite(res(0) == nil, ncalls() == 1, ncalls() == 2 && calleeIs(1, "env.(*Env).DefineValue") && arg(1) == arg(0) && res2(1) == old(runInfo.rv) && res3(1) == old(runInfo.env))',
+   '//@ ensures [C04] identok: typeis(old(runInfo.expr), "*ast.IdentExpr") && !strContains(as(old(runInfo.expr), "*ast.IdentExpr").Lit, ".") ==> runInfo.err == nil && runInfo.rv == old(runInfo.rv)'],
  "invokeTernaryOpExpr": [
    '//@ ensures [C07] cond: ncalls() >= 1 && ncalls() <= 2 && calleeIs(0, "invokeExpr") && arg(0) == expr.Expr',
    '//@ ensures [C07 C08] branch: ncalls() == 2 ==> res(0) == nil && calleeIs(1, "invokeExpr") && arg(1) == ite(truthyV(res2(0)), expr.LHS, expr.RHS)',
@@ -107,15 +114,24 @@ EXTRA = {
  "invokeMemberExpr": ['// C11: member syntax on a Go struct value (directly, behind an interface, or through a pointer) that has no method of that',
    '// name reads the exported field of that name - promoted fields of embedded structs included: the value at the index path',
    '// reflect.Type.FieldByName reports',
-   '//@ ensures [C11] field: ncalls() == 1 && res(0) == nil && !typeis(rvIface(unwrap(res2(0))), "*env.Env") && !rvValid(rvMethodNamed(unwrap(res2(0)), expr.Name)) && rvKind(memberRecv(res2(0))) == reflect.Struct && typeHasField(rvTypeOf(memberRecv(res2(0))), expr.Name) ==> runInfo.err == nil && runInfo.rv == rvFieldPath(memberRecv(res2(0)), typeFieldIndex(rvTypeOf(memberRecv(res2(0))), expr.Name))',
-   '//@ ensures [C11] method: ncalls() == 1 && res(0) == nil && !typeis(rvIface(unwrap(res2(0))), "*env.Env") && rvValid(rvMethodNamed(unwrap(res2(0)), expr.Name)) ==> runInfo.err == nil && runInfo.rv == rvMethodNamed(unwrap(res2(0)), expr.Name)'],
+   '//@ ensures [C11 C20] field: ncalls() == 1 && res(0) == nil && !typeis(rvIface(unwrap(res2(0))), "*env.Env") && !rvValid(rvMethodNamed(unwrap(res2(0)), expr.Name)) && rvKind(memberRecv(res2(0))) == reflect.Struct && typeHasField(rvTypeOf(memberRecv(res2(0))), expr.Name) ==> runInfo.err == nil && runInfo.rv == rvFieldPath(memberRecv(res2(0)), typeFieldIndex(rvTypeOf(memberRecv(res2(0))), expr.Name))',
+   '//@ ensures [C11 C20] method: ncalls() == 1 && res(0) == nil && !typeis(rvIface(unwrap(res2(0))), "*env.Env") && rvValid(rvMethodNamed(unwrap(res2(0)), expr.Name)) ==> runInfo.err == nil && runInfo.rv == rvMethodNamed(unwrap(res2(0)), expr.Name)'],
  "invokeSliceExpr": ['// C10: x[lo:hi] on a slice is Go\'s x[lo:hi]: the window lo..hi of the SAME storage with the capacity of x from lo on',
    '// (reflect.Slice3(lo, hi, cap(x))); x[lo:hi:max] is reflect.Slice3(lo, hi, max); a missing bound is 0 / len(x)',
    '//@ traces (reflect.Value).Slice3',
+   '// C07: the operands of x[lo:hi:max] are evaluated once each, in source order: x, then lo, hi, max as far as they are written;',
+   '// each one only after the one before it succeeded',
+   '//@ ensures [C07] first: ncalls() >= 1 && calleeIs(0, "invokeExpr") && arg(0) == expr.Item',
+   '//@ ensures [C07] slots: forall k int :: 1 <= k && k < ncalls() && calleeIs(k, "invokeExpr") ==> res(k-1) == nil && ((expr.Begin != nil && k == 1 && arg(k) == expr.Begin) || (expr.End != nil && k == ite(expr.Begin != nil, 2, 1) && arg(k) == expr.End) || (expr.Cap != nil && k == (ite(expr.Begin != nil, 1, 0) + ite(expr.End != nil, 1, 0) + 1) && arg(k) == expr.Cap))',
+   '//@ ensures [C07] allbounds: runInfo.err == nil && (rvKind(unwrap(res2(0))) == reflect.Slice || rvKind(unwrap(res2(0))) == reflect.Array) ==> ncalls() == (ite(expr.Begin != nil, 1, 0) + ite(expr.End != nil, 1, 0) + 1) + ite(expr.Cap != nil, 1, 0) + 1 && (forall k int :: 0 <= k && k < ncalls() - 1 ==> calleeIs(k, "invokeExpr"))',
    '//@ ensures [C10] two: runInfo.err == nil && expr.Cap == nil && rvKind(unwrap(res2(0))) == reflect.Slice ==> ncalls() >= 2 && calleeIs(ncalls()-1, "(reflect.Value).Slice3") && arg(ncalls()-1) == unwrap(res2(0)) && res3(ncalls()-1) == rvCap(unwrap(res2(0)))'],
  "invokeItemExpr": [
    '//@ ensures [C07] order: ncalls() >= 1 && ncalls() <= 2 && calleeIs(0, "invokeExpr") && arg(0) == expr.Item && (ncalls() == 2 ==> res(0) == nil && calleeIs(1, "invokeExpr") && arg(1) == expr.Index) && (runInfo.err == nil ==> ncalls() == 2)'],
- "invokeLenExpr": ['//@ ensures [C07] once: ncalls() == 1 && arg(0) == expr.Expr'],
+ "invokeLenExpr": ['//@ ensures [C07] once: ncalls() == 1 && arg(0) == expr.Expr',
+   '// C10/C19/C20: len(x) is Go\'s len of what x DENOTES (a value read from an interface-typed element or result included):',
+   '// an int64 for arrays, channels, maps, slices and strings, an error for everything else',
+   '//@ ensures [C10 C19 C20] len: ncalls() == 1 && res(0) == nil && (rvKind(unwrap(res2(0))) == reflect.Array || rvKind(unwrap(res2(0))) == reflect.Chan || rvKind(unwrap(res2(0))) == reflect.Map || rvKind(unwrap(res2(0))) == reflect.Slice || rvKind(unwrap(res2(0))) == reflect.String) ==> runInfo.err == nil && rvKind(runInfo.rv) == reflect.Int64 && rvInt(runInfo.rv) == rvLen(unwrap(res2(0)))',
+   '//@ ensures [C10 C19 C20] nolen: ncalls() == 1 && res(0) == nil && !(rvKind(unwrap(res2(0))) == reflect.Array || rvKind(unwrap(res2(0))) == reflect.Chan || rvKind(unwrap(res2(0))) == reflect.Map || rvKind(unwrap(res2(0))) == reflect.Slice || rvKind(unwrap(res2(0))) == reflect.String) ==> runInfo.err != nil'],
  "invokeArrayExpr": [
    '//@ ensures [C07] order: evalsPrefix(expr.Exprs) && okButLast() && (runInfo.err == nil ==> ncalls() == len(expr.Exprs))',
    '//@ loop 0 invariant ncalls() == rangeindex + 1 && rangeindex < len(expr.Exprs) && evalsPrefix(expr.Exprs) && (forall k int :: 0 <= k && k < ncalls() ==> res(k) == nil)',
@@ -129,9 +145,30 @@ EXTRA = {
  "convertReflectValueToType": ['//@ traced_optin rv -> result.1; result.0; rt', '//@ requires [C01] okvin: rvValid(rv) && rt != nil', '//@ ensures [C01] okv: rvValid(result.0)',    '// C11: a value whose type already is the target type, or whose target is interface{}, crosses unchanged; otherwise, when Go',
    '// itself can convert the value to the target type, the result is Go\'s conversion',
    '//@ ensures [C11 C10] identity: rt == interfaceType || rvTypeOf(rv) == rt ==> result.1 == nil && result.0 == rv',
-   '//@ ensures [C11 C10] goconv: rt != interfaceType && rvTypeOf(rv) != rt && typeConvertible(rvTypeOf(rv), rt) ==> result.1 == nil && result.0 == rvConvert(rv, rt)'],
- "convertSliceOrArray": ['//@ requires [C01] okvin: rvValid(rv) && rt != nil', '//@ ensures [C01] okv: rvValid(result.0)'],
- "convertMap": ['//@ requires [C01] okvin: rvValid(rv) && rt != nil', '//@ ensures [C01] okv: rvValid(result.0)'],
+   '//@ ensures [C11 C10] goconv: rt != interfaceType && rvTypeOf(rv) != rt && typeConvertible(rvTypeOf(rv), rt) ==> result.1 == nil && result.0 == rvConvert(rv, rt)',
+   '// ... otherwise: slices/arrays and maps are converted element-wise by convertSliceOrArray / convertMap (their contracts), an',
+   '// interface-typed nil becomes the ZERO VALUE of the target type, an interface-typed non-nil value is converted as what it wraps',
+   '//@ traces convertSliceOrArray convertMap convertReflectValueToType',
+   '//@ ensures [C11] slices: rt != interfaceType && rvTypeOf(rv) != rt && !typeConvertible(rvTypeOf(rv), rt) && (rvKind(rv) == reflect.Slice || rvKind(rv) == reflect.Array) && (kindOfType(rt) == reflect.Slice || kindOfType(rt) == reflect.Array) ==> ncalls() == 1 && calleeIs(0, "convertSliceOrArray") && arg(0) == rv && res3(0) == rt && result.0 == res2(0) && result.1 == res(0)',
+   '//@ ensures [C11] maps: rt != interfaceType && rvTypeOf(rv) != rt && !typeConvertible(rvTypeOf(rv), rt) && rvKind(rv) == reflect.Map && kindOfType(rt) == reflect.Map ==> ncalls() == 1 && calleeIs(0, "convertMap") && arg(0) == rv && res3(0) == rt && result.0 == res2(0) && result.1 == res(0)',
+   '//@ ensures [C11] nilzero: rt != interfaceType && rvTypeOf(rv) != rt && !typeConvertible(rvTypeOf(rv), rt) && rvTypeOf(rv) == interfaceType && rvKind(rv) == reflect.Interface && rvIsNil(rv) ==> result.1 == nil && result.0 == rvZero(rt)',
+   '//@ ensures [C11 C20] wrapped: rt != interfaceType && rvTypeOf(rv) != rt && !typeConvertible(rvTypeOf(rv), rt) && rvTypeOf(rv) == interfaceType && rvKind(rv) == reflect.Interface && !rvIsNil(rv) ==> ncalls() == 1 && calleeIs(0, "convertReflectValueToType") && arg(0) == rvElem(rv) && res3(0) == rt && result.0 == res2(0) && result.1 == res(0)'],
+ "convertSliceOrArray": ['//@ traced_optin rv -> result.1; result.0; rt', '//@ requires [C01] okvin: rvValid(rv) && rt != nil', '//@ ensures [C01] okv: rvValid(result.0)',
+   '// C11: a slice/array crossing to a Go parameter of another slice/array type is converted ELEMENT BY ELEMENT: for every index k,',
+   '// in order, element k of the source is converted to the target element type and exactly that converted value is stored into',
+   '// element k of the new container; the first element that cannot be converted fails the whole conversion (nothing is skipped)',
+   '//@ traces convertReflectValueToType (reflect.Value).Set',
+   '//@ loop 0 invariant [C11] elems: 0 <= i && i <= rvLen(rv) && ncalls() == 2*i && (forall k int :: 0 <= k && k < i ==> calleeIs(2*k, "convertReflectValueToType") && arg(2*k) == rvIndexV(rv, k) && res3(2*k) == typeElem(rt) && res(2*k) == nil && calleeIs(2*k+1, "(reflect.Value).Set") && arg(2*k+1) == rvIndexV(value, k) && res(2*k+1) == res2(2*k))',
+   '//@ ensures [C11] elementwise: result.1 == nil ==> ncalls() == 2*rvLen(rv) && result.0 == value && (forall k int :: 0 <= k && k < rvLen(rv) ==> arg(2*k) == rvIndexV(rv, k) && res3(2*k) == typeElem(rt) && arg(2*k+1) == rvIndexV(value, k) && res(2*k+1) == res2(2*k))',
+   '//@ ensures [C11] failfirst: result.1 != nil ==> result.0 == rv && ncalls() >= 1 && calleeIs(ncalls()-1, "convertReflectValueToType") && res(ncalls()-1) != nil'],
+ "convertMap": ['//@ traced_optin rv -> result.1; result.0; rt', '//@ requires [C01] okvin: rvValid(rv) && rt != nil', '//@ ensures [C01] okv: rvValid(result.0)',
+   '// C11: a map crossing to a Go parameter of another map type is converted ENTRY BY ENTRY: every entry the iteration presents',
+   '// (Next reported true) has its key converted to the target key type and its value to the target element type, and exactly',
+   '// that pair is stored into the new map - no entry is skipped (a nil value becomes the zero value by its conversion, it',
+   '// does not vanish); the first failing conversion fails the whole conversion',
+   '//@ traces (*reflect.MapIter).Next convertReflectValueToType (reflect.Value).SetMapIndex',
+   '//@ loop 0 invariant [C11] entries: ncalls() == 4*(ncalls()/4) && (forall k int :: 0 <= k && 4*k < ncalls() ==> calleeIs(4*k, "(*reflect.MapIter).Next") && res(4*k) == 1 && calleeIs(4*k+1, "convertReflectValueToType") && res3(4*k+1) == typeKey(rt) && res(4*k+1) == nil && calleeIs(4*k+2, "convertReflectValueToType") && res3(4*k+2) == typeElem(rt) && res(4*k+2) == nil && calleeIs(4*k+3, "(reflect.Value).SetMapIndex") && arg(4*k+3) == newMap && res(4*k+3) == res2(4*k+1) && res2(4*k+3) == res2(4*k+2))',
+   '//@ ensures [C11] entrywise: result.1 == nil ==> result.0 == newMap && ncalls() == 4*(ncalls()/4) + 1 && calleeIs(ncalls()-1, "(*reflect.MapIter).Next") && res(ncalls()-1) == 0 && (forall k int :: 0 <= k && 4*k < ncalls() - 1 ==> calleeIs(4*k, "(*reflect.MapIter).Next") && res(4*k) == 1 && calleeIs(4*k+3, "(reflect.Value).SetMapIndex") && arg(4*k+3) == newMap && res(4*k+3) == res2(4*k+1) && res2(4*k+3) == res2(4*k+2))'],
  "convertVMFunctionToType": ['//@ requires [C01] okvin: rvValid(rv) && rt != nil', '//@ ensures [C01] okv: rvValid(result.0)'],
  "invokeDerefExpr": ['// C20: the operand is what the evaluated expression denotes, also when it was read from an interface-typed element',
    '//@ ensures [C20] ptr: ncalls() == 1 && res(0) == nil && rvKind(unwrap(res2(0))) == reflect.Ptr ==> runInfo.err == nil && runInfo.rv == rvElem(unwrap(res2(0)))',
@@ -139,6 +176,7 @@ EXTRA = {
  "invokeIncludeExpr": ['// C06/C20/C07: `item in list` evaluates item, then list, and answers whether vm.equal holds between the item and some element',
    '// of the list (the same relation as == and switch); the list is what the expression denotes (unwrapped)',
    '//@ ensures [C07] order: ncalls() <= 2 && (ncalls() >= 1 ==> arg(0) == expr.ItemExpr) && (ncalls() == 2 ==> arg(1) == expr.ListExpr && res(0) == nil)',
+   '//@ ensures [C07] both: ncalls() >= 1 && calleeIs(0, "invokeExpr") && (res(0) == nil ==> ncalls() == 2 && calleeIs(1, "invokeExpr"))',
    '//@ ensures [C20] listkind: ncalls() == 2 && res(1) == nil && (rvKind(unwrap(res2(1))) == reflect.Slice || rvKind(unwrap(res2(1))) == reflect.Array) ==> runInfo.err == nil',
    '//@ ensures [C06 C20] member: runInfo.err == nil && ncalls() == 2 ==> (runInfo.rv == trueValue || runInfo.rv == falseValue) && ((runInfo.rv == trueValue) == (exists j int :: 0 <= j && j < rvLen(unwrap(res2(1))) && equalR(res2(0), rvIndexV(unwrap(res2(1)), j))))',
    '//@ loop 0 invariant 0 <= i && ncalls() == 2 && res(0) == nil && res(1) == nil && itemExpr == res2(0) && (forall j int :: 0 <= j && j < i ==> !equalR(res2(0), rvIndexV(runInfo.rv, j)))'],
@@ -154,6 +192,8 @@ EXTRA = {
  "invokeItemExpr": ['// C10: x[i] on a slice, array or string with an integer index in range reads exactly element i; an index out of range',
    '// (negative, equal to or beyond the length) is an error; on a map it is getMapIndex(key, map); anything else is an error',
    '//@ ensures [C07] order: ncalls() <= 2 && (ncalls() >= 1 ==> arg(0) == expr.Item) && (ncalls() == 2 ==> arg(1) == expr.Index && res(0) == nil)',
+   '// ... and the index operand IS evaluated whenever the item operand succeeded - whatever the item turned out to be',
+   '//@ ensures [C07] both: ncalls() >= 1 && calleeIs(0, "invokeExpr") && (res(0) == nil ==> ncalls() == 2 && calleeIs(1, "invokeExpr"))',
    '//@ ensures [C10 C20] elem: runInfo.err == nil && ncalls() == 2 && (rvKind(unwrap(res2(0))) == reflect.Slice || rvKind(unwrap(res2(0))) == reflect.Array) && rvKind(res2(1)) == reflect.Int64 ==> 0 <= rvInt(res2(1)) && rvInt(res2(1)) < rvLen(unwrap(res2(0))) && runInfo.rv == rvIndexV(unwrap(res2(0)), rvInt(res2(1)))',
    '//@ ensures [C10 C20] range: ncalls() == 2 && res(1) == nil && (rvKind(unwrap(res2(0))) == reflect.Slice || rvKind(unwrap(res2(0))) == reflect.Array || rvKind(unwrap(res2(0))) == reflect.String) && rvKind(res2(1)) == reflect.Int64 && (rvInt(res2(1)) < 0 || rvInt(res2(1)) >= rvLen(unwrap(res2(0)))) ==> runInfo.err != nil && runInfo.rv == nilValue',
    '//@ ensures [C10 C20] inrange: ncalls() == 2 && res(1) == nil && (rvKind(unwrap(res2(0))) == reflect.Slice || rvKind(unwrap(res2(0))) == reflect.Array) && rvKind(res2(1)) == reflect.Int64 && 0 <= rvInt(res2(1)) && rvInt(res2(1)) < rvLen(unwrap(res2(0))) ==> runInfo.err == nil',
@@ -219,11 +259,14 @@ for f in pure:
     if f in ERR:
         ls.append("//@ ensures [C08] nosentinel: notSentinel(result.1) && result.1 != ErrInterrupt")
     if f == "processCallReturnValues":
-        ls += ["//@ traced_optin rvs -> result.1; result.0"]
+        ls += ["//@ traced_optin rvs -> result.1; result.0", "//@ requires [C01 C11] rvsvalid: forall k int :: 0 <= k && k < len(rvs) ==> rvValid(rvs[k])"]
         ls += ["// C11: all results of a Go function come back: none -> nil, one -> that value (several -> a list, not under contract)",
                "//@ ensures [C11] none: !isRunVMFunction && len(rvs) == 0 ==> result.0 == nilValue && result.1 == nil",
                "//@ ensures [C11] one: !isRunVMFunction && len(rvs) == 1 ==> result.0 == rvs[0] && result.1 == nil",
-               "//@ ensures [C11] goerr: !isRunVMFunction ==> result.1 == nil"]
+               "//@ ensures [C11] goerr: !isRunVMFunction ==> result.1 == nil",
+               "// ... several -> the list reflectValueSlicetoInterfaceSlice builds from exactly these results (its contract: element k is result k)",
+               "//@ traces reflectValueSlicetoInterfaceSlice",
+               "//@ ensures [C11] many: !isRunVMFunction && convertToInterfaceSlice && len(rvs) >= 2 ==> ncalls() == 1 && calleeIs(0, \"reflectValueSlicetoInterfaceSlice\") && arg(0) == rvs && result.0 == res(0)"]
         ls += ["// VM-function protocol (ASSUMED for host functions with the VM signature, proved for funcExpr's closures): the error a",
                "// function value returns is never a control-flow sentinel, and it is non-nil when a cancellation poll fired inside it",
                "//@ free_ensures [C08] nosentinel: notSentinel(result.1)",
@@ -231,6 +274,12 @@ for f in pure:
                "//@ free_ensures [C01] okv: rvValid(result.0)"]
     if f == "reflectValueSlicetoInterfaceSlice":
         ls.append("//@ loop 0 invariant interfaceSlice == nil || fresh(base(interfaceSlice))")
+        ls += ["//@ traced_optin valueSlice -> result"]
+        ls += ["// C11: ALL results of a Go function come back, as a list, in order, each one as the very value Go returned (what an",
+               "// interface-typed result wraps; a typed nil pointer / slice / map stays that typed nil): element k of the list is result k",
+               "//@ requires [C11 C01] valid: forall k int :: 0 <= k && k < len(valueSlice) ==> rvValid(valueSlice[k])",
+               "//@ loop 0 invariant [C11] prefix: len(interfaceSlice) == rangeindex + 1 && rangeindex < len(valueSlice) && (forall k int :: 0 <= k && k < len(interfaceSlice) ==> interfaceSlice[k] == ite(rvCanIface(unwrap(valueSlice[k])), rvIface(unwrap(valueSlice[k])), nil))",
+               "//@ callsite reflect.ValueOf * [C11] list: len(interfaceSlice) == len(valueSlice) && (forall k int :: 0 <= k && k < len(valueSlice) ==> interfaceSlice[k] == ite(rvCanIface(unwrap(valueSlice[k])), rvIface(unwrap(valueSlice[k])), nil))"]
     emit(f, ls)
 out.append('''//@ func (*Error).Error
 //@ props C04
@@ -245,6 +294,12 @@ out.append('''//@ func (*Error).Error
 //@ loop 0 invariant (args == nil || fresh(base(args))) && ncalls() == indexExpr && 0 <= indexExpr && evalsPrefix(callExpr.SubExprs) && (forall k int :: 0 <= k && k < ncalls() ==> res(k) == nil)
 //@ loop 1 invariant (args == nil || fresh(base(args))) && ncalls() == indexExpr + 1 && evalsPrefix(callExpr.SubExprs) && (forall k int :: 0 <= k && k < ncalls() ==> res(k) == nil)
 //@ loop 2 invariant (args == nil || fresh(base(args))) && ncalls() == indexExpr && 0 <= indexExpr && evalsPrefix(callExpr.SubExprs) && (forall k int :: 0 <= k && k < ncalls() ==> res(k) == nil)
+// C07/C11: every conversion of an argument to its Go parameter type happens right after the evaluation of THAT operand (before any
+// later operand is evaluated - so a failing conversion ends the evaluation of the operands after it), on exactly the value the
+// operand yielded (or, for a spread list, on its elements), towards the type of the parameter it is bound to: the parameter at
+// the current position, or for a variadic function the variadic slice type / its element type
+//@ callsite convertReflectValueToType * [C07 C11] convnow: ncalls() >= 1 && res(ncalls()-1) == nil && (callarg0 == res2(ncalls()-1) || callarg0 == rvIndexV(unwrap(res2(ncalls()-1)), indexSlice))
+//@ callsite convertReflectValueToType * [C11] convtype: callarg1 == typeIn(rt, indexInReal) || callarg1 == typeElem(typeIn(rt, numInReal-1)) || callarg1 == typeIn(rt, numInReal-1)
 // C20: f(xs...) is rejected as "not a list" only when what xs DENOTES (unwrapped) is neither a slice nor an array
 //@ callsite newStringError ~call_is_variadic_but_last_parameter [C20] spreadlist: ncalls() >= 1 && rvKind(unwrap(res2(ncalls()-1))) != reflect.Slice && rvKind(unwrap(res2(ncalls()-1))) != reflect.Array
 
